@@ -32,11 +32,12 @@ Contract == [ sift |-> "SingleSignal", ensemble_sift |-> "SingleSignal", complet
 EPs == DOMAIN Contract
 Layouts == {"vector", "column", "trailing_ones", "two_columns", "row", "three_d", "mismatch",
             "strided",        \* the vector as a non-contiguous view (every second element of a larger buffer)
-            "mixed", "mixed_rev"}   \* two data arrays in DIFFERENT accepted layouts (column + vector, vector + column)
+            "mixed", "mixed_rev",
+            "three_d_one"}    \* [n x 2 x 1]: SOME trailing dimensions are one, not all - still not a single signal   \* two data arrays in DIFFERENT accepted layouts (column + vector, vector + column)
 \* verdict dictated by the contract; "n/a" = the contract says nothing about this layout (not exercised)
 Expected(c, l) ==
     CASE c = "SingleSignal" -> (IF l \in {"vector", "column", "trailing_ones", "strided"} THEN "accept"
-                                ELSE IF l \in {"two_columns", "row", "three_d"} THEN "reject" ELSE "n/a")
+                                ELSE IF l \in {"two_columns", "row", "three_d", "three_d_one"} THEN "reject" ELSE "n/a")
       [] c = "VectorOrColumn" -> (IF l \in {"vector", "column", "strided"} THEN "accept" ELSE "n/a")
       [] c = "EqualLen" -> (IF l \in {"vector", "column", "strided"} THEN "accept" ELSE IF l = "mismatch" THEN "reject"
                             ELSE IF l \in {"mixed", "mixed_rev"} THEN "accept" ELSE "n/a")
